@@ -241,7 +241,9 @@ func genC03(tier string, r *core.Rand) C03Plan {
 			p.Peer.PM = true
 		}
 		nth := r.Pick(4, 1, 1)
-		switch r.Pick(4, 3, 2, 1, 1) {
+		switch r.Pick(4, 3, 2, 1, 1, 2) {
+		case 5: // another proposal code in front of an otherwise consistent proposal (FD = gzip experiment, FA/FB = older protocols)
+			mut("proposal", nth, "field", 0, 0, []byte(core.Choice(r, []string{"FD", "FD", "FA", "FB", "fc", "fd", "FE", "F"})))
 		case 0:
 			mut(kind, nth, "replace", 0, 0, genHostileLine(r))
 		case 1:
